@@ -78,6 +78,24 @@ pub fn call_type(r: &Recipe, func: &str, args: &[MArg]) -> Result<MType, Why> {
             }
         }
         t0
+    } else if func == "ctxfn" {
+        if !r.funcs.iter().any(|f| f == func) {
+            return Err("unknown function ctxfn".into());
+        }
+        if args.is_empty() || args.len() > 3 {
+            return Err("arity of ctxfn".into());
+        }
+        for (i, a) in args.iter().enumerate() {
+            let is_lit = matches!(a, MArg::Lit(_));
+            let want = if i == 0 { MType::Bytes } else { MType::Int };
+            if (i == 0) == is_lit {
+                return Err(format!("kind of ctxfn argument #{i}"));
+            }
+            if arg_type(r, a)? != want {
+                return Err(format!("type of ctxfn argument #{i}"));
+            }
+        }
+        MType::Int
     } else {
         if !r.funcs.iter().any(|f| f == func) {
             return Err(format!("unknown function {func}"));
